@@ -12,6 +12,8 @@ exactly.
 import math
 from fractions import Fraction
 
+import zlib
+
 import numpy as np
 
 import core
@@ -52,15 +54,35 @@ def solve_x(L, delta, bits=160):
 def one(ctx, FP, d, delta):
     drv = ctx.driver()
     L = 2 * d + 1
-    with core.quiet():
+    form = "?"
+    try:
+      with core.quiet():
         g = FP.FPSearch(verbose=False)
-        ph = own(g.generate(d, delta))
+        # the request as the numbers a caller holds: Python int / float, NumPy integers (np.arange), the CLI's float d,
+        # positional or keyword
+        form = ["int,float", "np.int64,np.float64", "float-d,float", "keywords", "np.int32,float"][zlib.crc32(repr((d, delta)).encode()) % 5]
+        ctx.count("argument-form:" + form)
+        if form == "np.int64,np.float64":
+            ph = own(g.generate(np.int64(d), np.float64(delta)))
+        elif form == "float-d,float":
+            ph = own(g.generate(float(d), delta))
+        elif form == "keywords":
+            ph = own(g.generate(d=d, delta=delta))
+        elif form == "np.int32,float":
+            ph = own(g.generate(np.int32(d), delta))
+        else:
+            ph = own(g.generate(d, delta))
         av = own(g.generate(d, delta, return_alpha=True))
         gamma = 1 / np.cosh((1 / L) * np.arccosh(1 / delta))
         ph_gamma = own(g.generate(d, gamma=float(gamma)))
+    except Exception as e:  # noqa
+        ctx.case([d, delta], True, {"d": d, "delta": delta, "raised": type(e).__name__})
+        ctx.violation("c18:raises:" + type(e).__name__, "generate raised %s (%s) on a search length in 1..200 and delta in (0,1)" % (type(e).__name__, str(e)[:80]),
+                      {"d": d, "delta": delta, "argument_form": form})
+        return
     ctx.count("d<=10" if d <= 10 else ("d<=40" if d <= 40 else "d>40"))
     ctx.case([d, delta], True, {"d": d, "delta": delta, "phases": ph[:4]})
-    replay = {"d": d, "delta": delta}
+    replay = {"d": d, "delta": delta, "argument_form": form}
     if len(ph) != 2 * d or ph != ph[::-1] or not P.finite(ph):
         ctx.violation("c18:layout", "generate(d, delta) does not return 2d finite palindromic phases", dict(replay, phases=ph))
         return
